@@ -625,8 +625,12 @@ func getIndex(index constant.Constant) gep.Index {
 		var val int64
 		for i, elem := range index.Elems {
 			switch elem := elem.(type) {
-			case *constant.Int:
-				x := elem.X.Int64()
+			case *constant.Int, *constant.ZeroInitializer:
+				// (an integer element may be spelled `i32 zeroinitializer`)
+				var x int64
+				if elem, ok := elem.(*constant.Int); ok {
+					x = elem.X.Int64()
+				}
 				if i == 0 {
 					val = x
 				} else if x != val {
